@@ -40,7 +40,10 @@ def gen_file(r, ncontigs, win=16384):
             pos += r.choice([0, 0, 1, 5, 100, 5000, 20000, 70000])
             if r.random() < 0.15:
                 pos = (pos // win + 1) * win + r.choice([0, 0, 0, 1, -1])
-    hdr = [f"##contig=<ID={c},length=100000000>" for c in contigs] + HDR_TAIL
+    hcontigs = list(contigs)
+    if r.random() < 0.3:
+        r.shuffle(hcontigs)  # a text VCF may list its ##contig lines in another order than its body
+    hdr = [f"##contig=<ID={c},length=100000000>" for c in hcontigs] + HDR_TAIL
     return contigs, vcfgen.vcf_text(hdr, recs), len(recs)
 
 
